@@ -39,6 +39,8 @@ Bad(W) ==
        \* setup results the original had computed when it was composed (W.pre) are taken from it, not computed again
        <<inEq /\ ~W.raised /\ RangeOf(W.exec) # exp.exec \ RangeOf(W.pre), "C19.exec">>,
        <<~W.orig_same, "C19.original-changed">>,
+       \* C15: what a call of the original returns never depends on the DAGs composed from it
+       <<~W.orig_same, "C15.changed-by-compose">>,
        \* C20: the composed DAG called inside another DAG's describing function is its body written in place
        \* (known finding: two call sites of one re-used function given as inputs, the later call site first - the
        \* stub of the earlier call site is renumbered and the outer DAG fails to build with a KeyError, W.noccupied)
